@@ -707,10 +707,14 @@ impl Screen {
             // don't even try to draw control characters
             return;
         }
+        // a cell pair can represent at most a double-width character, so
+        // anything wider (unicode-width reports 3 for U+17D8) is treated as
+        // double-width
         let width = width
             .unwrap_or(1)
+            .min(2)
             .try_into()
-            // width() can only return 0, 1, or 2
+            // the width is now 0, 1, or 2
             .unwrap();
         if width > size.cols {
             // a character wider than the entire screen can't be drawn
